@@ -497,6 +497,20 @@ def run(ctx, prog):
     ctx.floor('template kernel counter / membership obligations', n10, 3)
     ctx.rule('C14-D9', 'rational-function normal forms under the one-sample abstraction: class means, pooled unbiased covariance averaged over the declared classes, its inverse, the Mahalanobis contribution per batch and the score 10 - accumulated / n')
     ctx.floor('template formulas compared with their definitions', d9(ctx, prog), 5)
+    ctx.rule('C14-D11', 'the class sums and the sums of outer products are taken of the samples converted to the working precision: no product / power / reduction of raw (narrow integer) samples in the template build kernels (a product evaluated in the trace dtype wraps around, the pooled covariance is then not a covariance)')
+    from .. import kernelrules as _kr14
+    from .c11 import emit as _emit14
+    n11 = 0
+    for f_, kind_, call_ in kernels.numba_funcs(prog):
+        if f_.mod.name != TPL or kind_ != 'njit' or not f_.name.startswith('_accumulate_core'):
+            continue
+        res_, prec_ = _kr14.precision_taint(prog, f_)
+        if prec_:
+            n11 += 1
+            if not res_:
+                ctx.ok('C14-D11', f'{f_.key}::precision `{prec_}`', 'no arithmetic on raw samples')
+            _emit14(ctx, 'C14-D11', res_)
+    ctx.floor('template build kernels under precision discipline', n11, 2)
     # C14-D8: the matched-trace mean only counts accepted batches - the C16 analysis instantiated for the template classes
     ctx.rule('C14-D8', 'a matching / building batch that is refused (explicit raise reachable from update) leaves no partial contribution in the scores or the class sums (C16 analysis over the template classes)')
     from . import c16
